@@ -182,7 +182,7 @@ def run_check(prop, tier, seed, replay=None):
     for k, h in known_hits.items():
         print("KNOWN-FINDING: property=%s %s [%s, %d occurrence(s)]" % (prop, h["finding"]["what"], k, h["n"]))
     for msg in total.inconclusive[:10]:
-        print("    inconclusive: %s" % msg[:600])
+        print("    inconclusive: %s" % msg.strip().replace("\n", " | ")[-400:])
     if fresh:
         os.makedirs(os.path.join(VERIF, "replays"), exist_ok=True)
         seen = set()
@@ -204,6 +204,9 @@ def run_check(prop, tier, seed, replay=None):
             print("    %s" % v["what"][:700])
             print("VIOLATION property=%s replay=%s" % (prop, path))
         return 1
+    broken = [m for m in total.inconclusive if m.startswith(("monitor exception", "post exception", "build", "post build"))]
+    if broken:
+        low.append("%d shard(s) of the monitor did not complete" % len(broken))
     if low:
         print("INCONCLUSIVE property=%s %s" % (prop, "; ".join(low)))
         return 2
